@@ -1,0 +1,17 @@
+//go:build !verif
+// +build !verif
+
+package scanner
+
+// verifState and verifStep are placeholders for the runtime-verification hooks
+// that are compiled in with the "verif" build tag only (see verif_on.go).
+type verifState struct{}
+
+const (
+	verifStepToken = iota
+	verifStepCall
+	verifStepRet
+	verifStepUnget
+)
+
+func (lex *Lexer) verifStep(kind int) {}
